@@ -132,6 +132,20 @@ func Witnesses() []*Case {
 	for i, s := range []string{"", "0", "-0", "1e5", "1E+5", "1e", "1.", "01", "-", "+1", ".5", "1e+", "0x1", " 1", "1 ", "12345678901234567890.5e-7"} {
 		add(fmt.Sprintf("num%d", i), json.Number(s))
 	}
+	for i, s := range []string{"1e+", "1E-", "-0.5e+", "0e-", "1e+-1", "2E+", "1.5e-", "0E+"} {
+		add(fmt.Sprintf("numexp%d", i), json.Number(s))
+		add(fmt.Sprintf("numexp-field%d", i), struct {
+			N json.Number `json:"n"`
+		}{json.Number(s)})
+	}
+	// Marshaler output = a complete value followed by exactly one junk byte
+	for i, t := range []string{"{}x", "[1]]", "[1],", "\"s\"\"", "null0", "true,", "{\"a\":1}}", "12 3", "[]\x00", "falsee"} {
+		add(fmt.Sprintf("raw-junk%d", i), json.RawMessage(t))
+		add(fmt.Sprintf("raw-junk-field%d", i), struct {
+			R json.RawMessage `json:"r"`
+			Z int
+		}{json.RawMessage(t), 1})
+	}
 	add("num-string", struct {
 		N json.Number `json:"n,string"`
 		M json.Number `json:"m,omitempty"`
@@ -173,6 +187,18 @@ func Witnesses() []*Case {
 	add("big50-nested", struct{ B tygen.Big50 }{})
 	add("big49-nested", struct{ B tygen.Big49 }{})
 	add("big50-slice", []tygen.Big50{{F48: -1}})
+	{
+		var n3 tygen.N3
+		n3.X.Y.Leaf = tygen.Leaf{L: []int{}, M: map[string]int{}}
+		add("n3-zero-nonnil", n3)
+		add("n3-zero-nonnil-ptr", &n3)
+		add("n3-nil", tygen.N3{})
+		one := 1
+		var n3b tygen.N3
+		n3b.X.Y.Leaf = tygen.Leaf{A: 1, S: "s", L: []int{1}, M: map[string]int{"k": 1}, P: &one, I: 0, F: 1.5, B: true}
+		add("n3-full", n3b)
+		add("leaf-slice", []tygen.Leaf{{L: []int{}}, {}})
+	}
 	add("d4", tygen.D4{})
 	add("d4-ptr", &tygen.D4{})
 	// maps around the sort thresholds, keys with long common prefixes (radix depth) and prefixes of each other
@@ -209,6 +235,16 @@ func Witnesses() []*Case {
 	// strings
 	add("str-long", strings.Repeat("a", 5000)+"\"")
 	// long runs of characters that need 6-byte escapes: the quoting buffer grows more than once
+	for _, n := range []int{20000, 40000, 80000} {
+		ctl := strings.Repeat("\x01\x02\x1f", n/3)
+		add(fmt.Sprintf("str-ctl-%d", n), ctl)
+		add(fmt.Sprintf("field-ctl-%d", n), struct {
+			A int
+			S string `json:"s"`
+			B string
+		}{1, ctl, "tail"})
+		add(fmt.Sprintf("strs-ctl-%d", n), []string{"x", ctl, ctl[:n/2] + "\"\\<"})
+	}
 	for _, n := range []int{700, 1500, 3000, 4100, 9000} {
 		ctl := strings.Repeat("\x01\x02", n/2)
 		add(fmt.Sprintf("str-ctl-%d", n), ctl)
